@@ -384,6 +384,11 @@ impl OutstationSession {
         writer: &mut TransportWriter,
         database: &mut DatabaseHandle,
     ) -> RunError {
+        // a previous run that was cancelled instead of ending with an error did not get to
+        // reset the per-session state
+        self.state.reset();
+        database.reset();
+
         loop {
             if let Err(err) = self.run_idle_state(io, reader, writer, database).await {
                 self.state.reset();
